@@ -12,6 +12,7 @@ import Qryn.Proofs.TraceQLTree
 import Qryn.Proofs.PromSelect
 import Qryn.Proofs.ProfSelector
 import Qryn.Prof.SelectorCtx
+import Qryn.Proofs.ConfineTempo
 /-! # C13 — every read is confined to the requested time window and signal type
 
 `Confine.confined` is a structural predicate on statements (every base-table scan carries timestamp
@@ -376,5 +377,92 @@ theorem traceql_results_in_window (o : Oracles) (ao : AggOracles) (hp : TraceQL.
     `From ≤ timestamp_ns ≤ To`. -/
 theorem prom_samples_in_window (fromNs toNs ts : Int) :
     Prom.scanHolds fromNs toNs ts = true ↔ fromNs ≤ ts ∧ ts ≤ toNs := Prom.scanHolds_iff fromNs toNs ts
+
+end Qryn.C13
+
+/-! ## the legacy Tempo search (`GET /api/search?tags=…`): `Tempo.planSearch`, tied byte for byte to `TempoService.Search`
+    (→ `dbVersion.GetVersionInfo` → `SQLIndexQuery` + `GetTracesQuery`) in every version state by the `model-tempo` stream -/
+namespace Qryn.C13
+open Qryn Qryn.Sql Qryn.Confine Qryn.Tempo
+
+/-- **tempo_search_confined.** For EVERY request of the legacy Tempo search — any tag list (also none, also an empty one),
+    any limit, any duration bounds, any window with positive ends (the controller passes `start`/`end` seconds or
+    now − 6 h / now), both table layouts — and EVERY version state of the database (any `settings` rows, any table list):
+    the read of the span table carries `start_time_unix_nano > from` and `<= to` (`start_time_unix_nano` being the alias of
+    `timestamp_ns` in the same select), whether or not an index request is given; and every per-tag sub-select over
+    `tempo_traces_attrs_gin` carries `date >= toDate(UTC day of from)`, `date <= toDate(UTC day of to)` and no other
+    comparison on the date column (so no index row of a day the window touches is cut off, `date_lower_covers` /
+    `date_upper_covers`). The version state only adds conjuncts (`timestamp_ns`, `duration` of the index rows). -/
+theorem tempo_search_confined (cfg : Cfg) (r : SearchReq) (ver : VersionInfo) (h : SearchCfg cfg r)
+    (hf : 0 < r.fromNs) (ht : 0 < r.toNs) : searchConfined cfg (winSearch r) (planSearch r ver) = true :=
+  planSearch_confined cfg r ver h hf ht
+
+/-- **tempo_search_results_in_window.** Semantic form, over the meaning `Tempo.searchRows` of the statement (alias columns
+    usable in WHERE, tuple `IN` over the joined index sub-selects, stable ORDER BY, LIMIT): for every database, every
+    request and every version state each returned row is a span row and its `start_time_unix_nano` is an integer in
+    `(from, to]` — no span from outside the window, whatever the index contains. -/
+theorem tempo_search_results_in_window (o : Oracles) (db : SearchDb) (r : SearchReq) (ver : VersionInfo)
+    (hf : 0 < r.fromNs) (ht : 0 < r.toNs) (row : Row) (h : row ∈ searchRows o db (planSearch r ver)) :
+    (∃ s ∈ db.spans, row = aliasRow o searchCols s) ∧
+    ∃ ts, row.get "start_time_unix_nano" = .int ts ∧ r.fromNs < ts ∧ ts ≤ r.toNs :=
+  planSearch_rows_in_window o db r ver hf ht row h
+
+/-- … and that column is the span's own `timestamp_ns` (the table has no column of the alias' name) -/
+theorem tempo_search_alias_is_timestamp (o : Oracles) (s : Row) (h : s.lookup "start_time_unix_nano" = none) :
+    (aliasRow o searchCols s).get "start_time_unix_nano" = s.get "timestamp_ns" :=
+  aliasRow_start o s h
+
+/-- **tempo_version_gate.** The version state as `GetVersionInfo` + `IsVersionSupported` decide it: a feature is supported
+    for a window iff the LAST `type='update'` settings row of that name whose value parses as an int64 (Unix seconds)
+    satisfies `value · 10⁹ ≤ from` in int64 arithmetic; without such a row it is supported for no window. The end of
+    the window is not looked at, nor is the table list (which only concerns `v5`). -/
+theorem tempo_version_gate (rows : List (Bytes × Bytes)) (tables : List Bytes) (fromNs : Int) :
+    isVersionSupported (versionInfo rows tables) v2name fromNs =
+      (match lastParsed v2name rows with
+       | some t => decide (wrap64 (t * 1000000000) ≤ fromNs)
+       | none => false) :=
+  isVersionSupported_versionInfo rows tables v2name fromNs (by decide +kernel)
+
+/-- **tempo_index_bounded_iff_v2.** The index request carries timestamp bounds (`timestamp_ns >= from`, `<= to` in each
+    per-tag sub-select) exactly when there is at least one tag and tempo_v2 is supported for the window; in every other
+    version state it is confined by whole UTC days only. -/
+theorem tempo_index_bounded_iff_v2 (r : SearchReq) (ver : VersionInfo) (tags : List Tag) (hf : 0 < r.fromNs) (ht : 0 < r.toNs) :
+    idxBounded (winSearch r) (idxQuery r ver tags) = (!tags.isEmpty && isVersionSupported ver v2name r.fromNs) :=
+  idxBounded_iff r ver tags hf ht
+
+/-- **idx_only_confined_iff.** COUNTER-PATTERN (seeded change C13-4, not the code): a span read that drops its own time
+    conjuncts whenever an index request is given is confined exactly in the version states of
+    `tempo_index_bounded_iff_v2` — not when the settings row is absent, unparsable, or newer than the window start. -/
+theorem idx_only_confined_iff (cfg : Cfg) (r : SearchReq) (ver : VersionInfo) (tags : List Tag) (h : SearchCfg cfg r)
+    (htags : r.tags = some tags) (hf : 0 < r.fromNs) (ht : 0 < r.toNs) :
+    searchConfined cfg (winSearch r) (planSearchIdxOnly r ver) = (!tags.isEmpty && isVersionSupported ver v2name r.fromNs) :=
+  idx_only_confined cfg r ver tags h htags hf ht
+
+/-- a window of one second on 1970-01-02, one tag `k=v`, no tempo_v2 row -/
+def cexReq : SearchReq := ⟨some [⟨[107], .eq, [118]⟩], 0, 0, 10, 90000000000000, 90001000000000, false, "db", "tempo_traces", "tempo_traces_dist", false⟩
+/-- one span in the last second of that day, with its index row -/
+def cexDb : SearchDb :=
+  ⟨[[("trace_id", .str [1]), ("span_id", .str [2]), ("service_name", .str []), ("name", .str []),
+     ("timestamp_ns", .int 172799000000000), ("duration_ns", .int 5)]],
+   [[("date", .str (Time.formatDate 172799)), ("key", .str [107]), ("val", .str [118]), ("trace_id", .str [1]),
+     ("span_id", .str [2]), ("timestamp_ns", .int 172799000000000), ("duration", .int 5)]]⟩
+def cexOracles : Oracles := ⟨fun _ _ => false, fun _ => [], fun _ => false, fun _ _ _ => false, id, fun _ => 0, fun _ => 0, fun _ _ => [], fun _ _ => []⟩
+
+/-- **idx_only_counterexample.** … and there the results do leave the window: with no tempo_v2 row the counter-pattern
+    returns a span 23 hours after the end of a one-second window (same UTC day), which the real plan does not. -/
+theorem idx_only_counterexample :
+    ((searchRows cexOracles cexDb (planSearchIdxOnly cexReq [])).map (fun r => r.get "timestamp_ns") = [.int 172799000000000]) ∧
+    searchRows cexOracles cexDb (planSearch cexReq []) = [] ∧
+    ((searchRows cexOracles cexDb (planSearchIdxOnly cexReq [(v2name, 0)])) = []) := by
+  decide +kernel
+
+-- non-vacuity: the hypotheses are satisfiable by the real table names (the driver reports for every generated request
+-- whether the classification it uses, `lokiCfg`, satisfies them)
+def cexCfg : Cfg :=
+  ⟨fun t => if t = "tempo_traces" ∨ t = "tempo_traces_dist" then .data else if t = "`db`.tempo_traces_attrs_gin" then .index else .other,
+   fun _ => false, fun _ => false⟩
+example : SearchCfg cexCfg cexReq := by constructor <;> decide
+example : searchConfined cexCfg (winSearch cexReq) (planSearch cexReq [(v2name, 86400)]) = true :=
+  tempo_search_confined _ _ _ (by constructor <;> decide) (by decide) (by decide)
 
 end Qryn.C13
